@@ -386,30 +386,6 @@ def gen_chacha(tier, rng):
                         c = mk_chacha(rng, api, x, r, kb, ctr, cm, rng.below(3), rng.bytes(ln), chunks)
                         c["fam"] = "counter"
                         cases.append(c)
-    # F5: random
-    n = 90000 if thorough else 8000
-    for _ in range(n):
-        r, kb = rng.choice(COMBOS)
-        api = rng.choice([API_STREAM, API_STREAM, API_STREAM, API_ONESHOT, API_BLOCKS])
-        e = rng.below(10)
-        ln = rng.below(300) if e < 5 else (rng.below(1200) if e < 8 else rng.below(4097))
-        if api == API_BLOCKS:
-            ln -= ln % 64
-        if api == API_STREAM:
-            k = rng.range(1, 8)
-            cuts = sorted(rng.below(ln + 1) if rng.below(4) else 64 * rng.below(ln // 64 + 1) for _ in range(k - 1))
-            bounds = [0] + cuts + [ln]
-            chunks = [(bounds[i + 1] - bounds[i], rng.below(16), rng.below(16)) for i in range(k)]
-        elif api == API_BLOCKS and ln and rng.below(2):
-            a = 64 * rng.below(ln // 64 + 1)
-            chunks = [(a, rng.below(16), rng.below(16)), (ln - a, rng.below(16), rng.below(16))]
-        else:
-            chunks = [(ln, rng.below(16), rng.below(16))]
-        cm = rng.choice([0, 1, 1, 1, 2]) if api != API_ONESHOT else rng.choice([0, 1, 1])
-        c = mk_chacha(rng, api, rng.below(3) == 0, r, kb, rcounter(rng), cm, rng.below(3), rng.bytes(ln), chunks)
-        c["x"] = int(c["x"])
-        c["fam"] = "random"
-        cases.append(c)
     # F6: HChaCha
     edge = [bytes(32), b"\xff" * 32, bytes(range(32)), bytes(range(192, 224))]
     ivs = [None, bytes(16), b"\xff" * 16, bytes(range(16, 32)), bytes.fromhex("000000090000004a0000000031415927")]
@@ -419,11 +395,6 @@ def gen_chacha(tier, rng):
                 key = k[:kb // 8]
                 cases.append({"kind": "hchacha", "fam": "hchacha", "pat": rng.below(256), "rounds": r,
                               "key_size": key_size_param(rng, kb), "key": key, "iv": iv, "da": rng.below(16)})
-    for _ in range(16000 if thorough else 2000):
-        r, kb = rng.choice(COMBOS)
-        cases.append({"kind": "hchacha", "fam": "hchacha", "pat": rng.below(256), "rounds": r,
-                      "key_size": key_size_param(rng, kb), "key": rkey(rng, kb),
-                      "iv": None if rng.below(16) == 0 else rng.bytes(16), "da": rng.below(16)})
     return cases
 
 
@@ -472,14 +443,6 @@ def gen_gost(tier, rng, names):
                             c = mk_gcrypt(rng, names, be, d, sbox, tab, nblk, a + hi, b + hi, 0, 0)
                         c["fam"] = "galign"
                         cases.append(c)
-    # G2: random
-    for _ in range(60000 if thorough else 5000):
-        sbox, tab = rsbox(rng, names)
-        nblk = rng.range(1, 16) if rng.below(20) else 0
-        c = mk_gcrypt(rng, names, rng.below(2), rng.below(3), sbox, tab, nblk,
-                      rng.below(16), rng.below(16), rng.below(16), rng.below(16))
-        c["fam"] = "grandom"
-        cases.append(c)
     # G3: MAC over 1..8 blocks, every tag size, streaming over several calls
     reps = 6 if thorough else 1
     for sbox in allboxes:
@@ -500,6 +463,51 @@ def gen_gost(tier, rng, names):
                             c["sbox_tab"] = tab
                         cases.append(c)
     return cases
+
+
+RANDOM_COUNTS = {            # (chacha, hchacha, gost crypt) random cases per tier, generated inside the workers
+    "quick": (40000, 8000, 24000),
+    "thorough": (400000, 60000, 240000),
+}
+
+
+def gen_random(rng, names, n_chacha, n_hchacha, n_gost):
+    cases = []
+    for _ in range(n_chacha):
+        r, kb = rng.choice(COMBOS)
+        api = rng.choice([API_STREAM, API_STREAM, API_STREAM, API_ONESHOT, API_BLOCKS])
+        e = rng.below(10)
+        ln = rng.below(300) if e < 5 else (rng.below(1200) if e < 8 else rng.below(4097))
+        if api == API_BLOCKS:
+            ln -= ln % 64
+        if api == API_STREAM:
+            k = rng.range(1, 8)
+            cuts = sorted(rng.below(ln + 1) if rng.below(4) else 64 * rng.below(ln // 64 + 1) for _ in range(k - 1))
+            bounds = [0] + cuts + [ln]
+            chunks = [(bounds[i + 1] - bounds[i], rng.below(16), rng.below(16)) for i in range(k)]
+        elif api == API_BLOCKS and ln and rng.below(2):
+            a = 64 * rng.below(ln // 64 + 1)
+            chunks = [(a, rng.below(16), rng.below(16)), (ln - a, rng.below(16), rng.below(16))]
+        else:
+            chunks = [(ln, rng.below(16), rng.below(16))]
+        cm = rng.choice([0, 1, 1, 1, 2]) if api != API_ONESHOT else rng.choice([0, 1, 1])
+        c = mk_chacha(rng, api, int(rng.below(3) == 0), r, kb, rcounter(rng), cm, rng.below(3), rng.bytes(ln), chunks)
+        c["fam"] = "random"
+        cases.append(c)
+    for _ in range(n_hchacha):
+        r, kb = rng.choice(COMBOS)
+        cases.append({"kind": "hchacha", "fam": "hchacha-random", "pat": rng.below(256), "rounds": r,
+                      "key_size": key_size_param(rng, kb), "key": rkey(rng, kb),
+                      "iv": None if rng.below(16) == 0 else rng.bytes(16), "da": rng.below(16)})
+    for _ in range(n_gost):
+        sbox, tab = rsbox(rng, names)
+        nblk = rng.range(1, 16) if rng.below(20) else 0
+        c = mk_gcrypt(rng, names, rng.below(2), rng.below(3), sbox, tab, nblk,
+                      rng.below(16), rng.below(16), rng.below(16), rng.below(16))
+        c["fam"] = "grandom"
+        cases.append(c)
+    return cases
+
 
 
 # ----------------------------------------------------------------------------
@@ -773,8 +781,20 @@ def is_trivial(spec):
 # worker
 # ----------------------------------------------------------------------------
 def worker(job):
-    idx, specs, builds, infos, sboxes, names = job
+    idx, specs, builds, infos, sboxes, names, rnd = job
     part = common.new_part()
+    if rnd:
+        tier, counts = rnd
+        extra = gen_random(Rng("C08", common.seed(), tier, "worker", idx), names, *counts)
+        seen = set()
+        for s in extra:
+            common.part_count(part, "cases_" + s["fam"])
+            if idx == 0 and s["fam"] not in seen:
+                seen.add(s["fam"])
+                part["samples"].append({"family": s["fam"], "case": describe(s),
+                                        "payload_hex": payload(s, names).hex()[:300],
+                                        "executed_in": "every build variant listed under builds"})
+        specs = specs + extra
     pl = [payload(s, names) for s in specs]
     is_ch = [s["kind"] in ("chacha", "hchacha") for s in specs]
     results = [dict() for _ in specs]
@@ -845,12 +865,12 @@ def run(tier):
     rng = Rng("C08", common.seed(), tier, "gen")
     specs = gen_chacha(tier, rng) + gen_gost(tier, Rng("C08", common.seed(), tier, "gost"), names)
     Rng("C08", common.seed(), "shuffle").shuffle(specs)
-    njobs = 64 if tier == "quick" else 192
+    njobs = 64 if tier == "quick" else 256
     jobs = []
+    tot = RANDOM_COUNTS[tier]
     for j in range(njobs):
-        sl = specs[j::njobs]
-        if sl:
-            jobs.append((j, sl, builds, infos, sboxes, names))
+        counts = tuple(t // njobs + (1 if j < t % njobs else 0) for t in tot)
+        jobs.append((j, specs[j::njobs], builds, infos, sboxes, names, (tier, counts)))
     fam = {}
     for s in specs:
         if s["fam"] not in fam:
@@ -859,7 +879,9 @@ def run(tier):
         fam[s["fam"]] = fam.get(s["fam"], 0) + 1
     for part in common.parallel(worker, jobs):
         report.merge(part)
-    report.extra["distinct_cases"] = len(specs)
+    for k in ("random", "hchacha-random", "grandom"):
+        fam[k] = report.extra.pop("cases_" + k, 0)
+    report.extra["distinct_cases"] = sum(fam.values())
     report.extra["cases_by_family"] = fam
     report.extra["sbox_sets"] = names
     report.extra["exhaustive_subdomains"] = [
